@@ -196,6 +196,10 @@ type caseRunner struct {
 }
 
 func (r *caseRunner) run(label string, cases []c01Case) bool {
+	return runCases(r, label, cases, c01Eval)
+}
+
+func runCases[T any](r *caseRunner, label string, cases []T, eval func(*T, *tinyStats, *bnStats) (string, string, error)) bool {
 	c := r.c
 	if c.NViolations() > 0 {
 		c.Cap("stopped after first violating part; skipped: " + label)
@@ -205,7 +209,7 @@ func (r *caseRunner) run(label string, cases []c01Case) bool {
 	var tsm sync.Mutex
 	done := par.For(len(cases), func(i int) {
 		var ts tinyStats
-		got, want, err := c01Eval(&cases[i], &ts, &r.bs)
+		got, want, err := eval(&cases[i], &ts, &r.bs)
 		if err != nil {
 			c.HarnessError("%s: %v", label, err)
 		}
@@ -258,10 +262,8 @@ func (r *caseRunner) finish(level string) {
 	c.Set("cases_reference_invalid", r.rejected)
 	c.Set("distinct_nontrivial", r.accepted)
 	c.Set("outcomes", r.outcomes)
-	if _, ok := interface{}(nil).(int); !ok {
-		if len(r.c.CapsHit()) == 0 {
-			c.Set("exhaustive", true)
-		}
+	if len(r.c.CapsHit()) == 0 {
+		c.Set("exhaustive", true)
 	}
 }
 
@@ -339,6 +341,9 @@ func c01Body(c *ev.Ctx) {
 			for pre := int64(0); pre < p; pre++ {
 				for post := int64(0); post < p; post++ {
 					for cm := int64(0); cm < p; cm++ {
+						if (quick || p > 5) && cm > 1 {
+							continue
+						}
 						for p0 := int64(0); p0 < p; p0++ {
 							b := insBatch{Depth: 1, Start: fmt.Sprint(s), Pre: fmt.Sprint(pre), Post: fmt.Sprint(post), Comms: []string{fmt.Sprint(cm)}, Proofs: [][]string{{fmt.Sprint(p0)}}}
 							h, _ := b.refHash(f)
@@ -450,9 +455,12 @@ func c01Menu(d int, quick bool) []c01Case {
 			}
 		}
 		pre := t.Root()
-		for _, st := range starts {
+		for si, st := range starts {
 			for _, bsz := range []int{1, 2, 3} {
 				if bsz == 3 && (quick || d > 2) {
+					continue
+				}
+				if quick && bsz == 2 && d >= 2 && (si == 5 || si == 8 || si == 9) {
 					continue
 				}
 				nc := 1
